@@ -1,6 +1,6 @@
 // Kani harnesses for base/src/ring/root.rs (and the thin wrappers in base/src/math/root.rs): integer square and cube
-// roots of primitive integers.  u8 and u16: complete (all inputs, loops fully unwound with unwinding assertions);
-// u32: the same in the thorough tier.
+// roots of primitive integers.  u8 and u16: complete (all inputs, loops fully unwound with unwinding assertions).
+// u32 is NOT covered: `sqrt_rem` over all u32 (32x32-bit Newton multiplications) did not finish in 15 min.
 //
 // Oracle (C12): r is the root truncated toward zero and e the remainder, from the defining inequalities evaluated in a
 // wider type:  r^2 <= x < (r+1)^2, e == x - r^2   /   r^3 <= x < (r+1)^3, e == x - r^3.
@@ -40,9 +40,8 @@ macro_rules! vk_base_root_harnesses {
 
 // u8: brute-force search from 0: at most 15 (sqrt) / 6 (cbrt) increments
 vk_base_root_harnesses!(vk_base_root_sqrt_u8, vk_base_root_cbrt_u8, u8, 18);
-// u16 / u32: table estimate (+ Newton steps) followed by a short correction loop
+// u16: table estimate followed by a short correction loop
 vk_base_root_harnesses!(vk_base_root_sqrt_u16, vk_base_root_cbrt_u16, u16, 8);
-vk_base_root_harnesses!(vk_base_root_sqrt_u32, vk_base_root_cbrt_u32, u32, 8);
 
 // the normalized kernels on their whole precondition (top bits set)
 #[cfg_attr(kani, kani::proof)]
